@@ -40,8 +40,14 @@ def c15_nontrivial(c, ms):
 CONFIG = dict(
     modules=["SigModel.Props.C15"],
     theorems=["SigModel.SessionId." + t for t in [
-        "C15_field_encoding_injective",
-    ]],
+        "C15_field_encoding_injective", "C15_fields_separator_free", "encodeId_eq",
+        "C15_roundtrip", "C15_roundtrip_data", "C15_accept_iff_tag", "C15_noncanonical_rejected",
+        "C15_forgery_needs_fresh_mac", "C15_any_modification_invalid", "C15_tag_or_payload_kept_rejected",
+        "C15_kinds_disjoint", "C15_names_disjoint", "C15_minted_cross_role_rejected",
+        "C15_other_keys_rejected", "C15_block_key_not_authenticated",
+        "C15_cache_sound", "C15_source_facts",
+        "opaqueMac_ideal", "opaqueMac_opaque", "C15_without_guard_malleable",
+    ]] + ["SigModel.Base64.decode_encode", "SigModel.Base64.canonical_iff", "SigModel.Hmac.toyMac_ideal"],
     generated=["SessionId"],
     harness=dict(pkg="signaling", test="TestVerifC15"),
     stats=c15_stats,
@@ -60,6 +66,11 @@ CONFIG = dict(
                   "crypto/aes and proto.Unmarshal called directly (oracle lines)",
                   "executable HMAC-SHA256 of Basic/Hmac.lean is compared with crypto/hmac on every run, not proved"],
     assumptions=["ideal MAC: the tag function is injective on (key, message) — explicit hypothesis of the theorems, instance exhibited",
+                 "C15_minted_cross_role_rejected (a minted public id handed to DecodePrivate and the reverse) additionally assumes "
+                 "TagTailOpaque: a tag does not end in '+', '-' or a decimal digit (a MAC value is not text) — explicit hypothesis, "
+                 "instance exhibited together with IdealMac; C15_kinds_disjoint (role swap by byte reversal) needs IdealMac only",
+                 "C15_other_keys_rejected is about differing hash keys; key sets differing only in the block key are the open "
+                 "known finding C15-block-key-not-authenticated",
                  "that nobody without the hash key can compute a tag (unforgeability) is the cryptographic assumption the "
                  "theorems reduce to; it is not proved"],
 )
